@@ -119,9 +119,12 @@ def class_source(spec, c):
     kind = c['kind']
     L = []
     if kind == 'enum':
-        L.append('class {}(enum.Enum):'.format(c['name']))
+        mix = c.get('mix')
+        L.append('class {}({}):'.format(c['name'], {'int': 'enum.IntEnum', 'str': 'str, enum.Enum'}.get(
+            mix, 'enum.Enum')))
         for i, m in enumerate(c['members']):
-            L.append('    {} = {}'.format(m, i + 1))
+            # (members of mixin enums compare and hash like their values)
+            L.append('    {} = {}'.format(m, repr('v{}'.format(i + 1)) if mix == 'str' else i + 1))
         if c.get('sav') == 'lower':
             L.append('    @classmethod')
             L.append('    def _yatiml_savorize(cls, node):')
